@@ -12,8 +12,8 @@ from ..pathgen import PathGen
 from ..specgen import normalise_cond, normalise_path, nested_leaves
 from ..describe import Inert0
 from ..ruleterms import enc_arg1, Tags
-from ..terms import valida, Leaf
-from ..pathterms import PathT
+from ..terms import Leaf, valida
+from ..pathterms import PathT, MapT, MolT, cnd, lit
 from .c09 import IMPORTS
 from .c10 import limit_parts
 
@@ -37,7 +37,7 @@ def pathy(g, depth=2):
         return [pathy(g, depth - 1) for _ in range(g.r.randint(1, 2))]
     d = {}
     for _ in range(g.r.randint(1, 2)):
-        d[g.r.choice(["path", "path", "path.first", "path.len", "xpath", "my_path", "\\path", "a", "b"])] = pathy(g, depth - 1)
+        d[g.r.choice(["path", "path", "path.first", "path.len", "xpath", "my_path", "\\path", "C:\\path", "x\\path.len", "a", "b"])] = pathy(g, depth - 1)
     return d
 
 
@@ -136,7 +136,14 @@ def run(tier, seed, model_ok, spec_ok, replay=None):
                 ok = False
             k = g.r.random()
             if l.args and k < 0.12 and "DataType" not in l.cls and "is_instance" not in l.method:
-                l.args[g.r.randrange(len(l.args))] = normalise_path(limit_parts(pg.path(doc, max_len=2, mods_p=0.4)))
+                pa = normalise_path(limit_parts(pg.path(doc, max_len=2, mods_p=0.4)))
+                if g.r.random() < 0.3:
+                    # a part whose key condition LOOKS like plain equality but is on the key's length / type: it has no bare-key spelling
+                    kc = Leaf(g.r.choice(["KeyLength", "KeyLength", "KeyDataType"]), "equal_to", [g.r.choice([2.0, 1.0, 3])])
+                    if kc.cls == "KeyDataType":
+                        kc.args = [g.r.choice([str, int])]
+                    pa.parts.append(MapT(key=cnd(kc)) if g.r.random() < 0.6 else MolT(key=cnd(kc), index=lit(int(kc.args[0]))) if kc.cls == "KeyLength" and kc.args[0] == int(kc.args[0]) else MapT(key=cnd(kc)))
+                l.args[g.r.randrange(len(l.args))] = pa
             elif l.args and k < 0.22 and l.method in ("equal_to", "not_equal_to", "in_", "not_in", "eq") and "DataType" not in l.cls:
                 l.args[0] = copy.deepcopy(g.r.choice(PATHY)) if g.r.random() < 0.5 else pathy(g, 3)
             if l.method == "items_contain" and g.r.random() < 0.3:
